@@ -179,6 +179,32 @@ CHECKS.update({
         technique='Lean parser/renderer models + correspondence under both option values + flag-flip oracle',
         design='6/C15'),
 })
+CHECKS.update({
+    'C11': dict(
+        level='other',
+        text='In the Lean model parsing is a function of (text, options): determinism, history independence and interleaving '
+             'independence hold there by construction, so no theorem is claimed. That the implementation has no hidden state is '
+             'monitored on every run: results after random call histories (including half-way failures) and under 16 '
+             'barrier-started threads equal the fresh results and the pure model; the module-level pyparsing grammar is '
+             'fingerprinted before/after (identities, parse-action counts, results names, children) together with '
+             'Blueprint.parser; results of different calls share no mutable state (edits of one never show in another nor in later '
+             'parses); dropped results are reclaimed (weak references, live-object census).',
+        note='partial by nature: CPython scheduling, the GIL and the collector are outside any executable model; the monitors are the evidence',
+        technique='pure Lean model as reference + runtime monitors (history, threads, fingerprint, aliasing, weakrefs)',
+        design='6/C11'),
+    'C14': dict(
+        level='translation_validation',
+        text='Metamorphic oracle on the real parser: each spelled document in three versions with the same base spelling (no '
+             'comments / two independent random placements of // and /* */ comments above elements, trailing before or after '
+             'settings, and at discarding positions): the content minus comment attributes must be identical and the comment '
+             'attributes must be those the placement rules predict (trailing beats above). Rendering oracle with hostile comment '
+             'texts: SQL statements read back by the DDL reader are unchanged by comments, every comment line carries its marker, '
+             'DBML re-parses to the same content and comments. Lean theorem comment_lines_prefixed proves the marker property for '
+             'every text; parser and renderer models must agree on all generated cases.',
+        note='trusted: hand-written models tied by sampling; placement rules of the speller; theorem covers the line-prefix clause only',
+        technique='Lean models + theorem on comment rendering + metamorphic placement oracle + DDL-reader oracle',
+        design='6/C14'),
+})
 UNDER_CONSTRUCTION = 'check under construction (model and harness being built; see DESIGN.md)'
 
 
